@@ -1,5 +1,4 @@
-import LibconfigModel.Read
-import LibconfigModel.Writer
+import LibconfigModel.Step
 import LibconfigModel.WF
 /-
   Line-protocol driver: one operation per line on stdin, one canonical line on
@@ -8,10 +7,6 @@ import LibconfigModel.WF
 -/
 open Libconfig
 
-structure DState where
-  cfg : Config := Config.init
-  world : World := {}
-  fuel : Nat := 100000000
 
 def hexNib (c : Char) : Option Nat :=
   if '0' ≤ c ∧ c ≤ '9' then some (c.toNat - 48)
@@ -79,334 +74,122 @@ def dumpCfg (c : Config) : String :=
 
 def b2s (b : Bool) : String := if b then "1" else "0"
 
-/-- apply a node-level setter at path `p` -/
-def setAt (st : DState) (p : Path) (f : Node → Option Node) : DState × String :=
-  match st.cfg.root.get? p with
-  | none => (st, "bad-op")
-  | some n =>
-    match f n with
-    | none => (st, "0")
-    | some n' => ({ st with cfg := { st.cfg with root := st.cfg.root.modify (fun _ => n') p } }, "1")
+def parseKind : String → Option Kind
+  | "int" => some .int | "int64" => some .int64 | "float" => some .float
+  | "bool" => some .bool | "string" => some .string | _ => none
 
-def setElemAt (st : DState) (p : Path) (idx : Int) (setter : Node → Option Node) (ty : Nat) : DState × String :=
-  match st.cfg.root.get? p with
-  | none => (st, "bad-op")
-  | some n =>
-    match n.setElem setter ty idx with
-    | none => (st, "null")
-    | some (n', i) =>
-      ({ st with cfg := { st.cfg with root := st.cfg.root.modify (fun _ => n') p } }, showPath (p ++ [i]))
+def bitsOfHex (s : String) : Option Nat := (unhex s).map fun b => b.foldl (fun a x => a * 256 + x) 0
 
-def withNode (st : DState) (p : Path) (f : Node → String) : DState × String :=
-  match st.cfg.root.get? p with
-  | none => (st, "bad-op")
-  | some n => (st, f n)
+/-- parse one protocol line into an operation -/
+def parseOp (w : List String) : Option Op :=
+  match w with
+  | ["add", p, name, ty] => do some (.add (← parsePath p) (← unhexOpt name) (← ty.toInt?))
+  | ["remove", p, name] => do some (.remove (← parsePath p) (← unhexOpt name))
+  | ["remove_elem", p, idx] => do some (.removeElem (← parsePath p) (← idx.toNat?))
+  | ["set_int", p, v] => do some (.setInt (← parsePath p) (← v.toInt?))
+  | ["set_int64", p, v] => do some (.setInt64 (← parsePath p) (← v.toInt?))
+  | ["set_float", p, v] => do some (.setFloat (← parsePath p) (← bitsOfHex v))
+  | ["set_bool", p, v] => do some (.setBool (← parsePath p) (← v.toInt?))
+  | ["set_string", p, v] => do some (.setString (← parsePath p) (← unhexOpt v))
+  | ["set_int_elem", p, i, v] => do some (.setIntElem (← parsePath p) (← i.toInt?) (← v.toInt?))
+  | ["set_int64_elem", p, i, v] => do some (.setInt64Elem (← parsePath p) (← i.toInt?) (← v.toInt?))
+  | ["set_float_elem", p, i, v] => do some (.setFloatElem (← parsePath p) (← i.toInt?) (← bitsOfHex v))
+  | ["set_bool_elem", p, i, v] => do some (.setBoolElem (← parsePath p) (← i.toInt?) (← v.toInt?))
+  | ["set_string_elem", p, i, v] => do some (.setStringElem (← parsePath p) (← i.toInt?) (← unhexOpt v))
+  | ["set_format", p, f] => do some (.setFormat (← parsePath p) (← f.toNat?))
+  | ["set_hook", p, h] => do some (.setHook (← parsePath p) (← h.toNat?))
+  | ["set_options", n] => do some (.setOptions (← n.toNat?))
+  | ["set_option", o, f] => do some (.setOption (← o.toNat?) ((← f.toNat?) != 0))
+  | ["set_tab_width", n] => do some (.setTabWidth (← n.toNat?))
+  | ["set_float_precision", n] => do some (.setFloatPrecision (← n.toNat?))
+  | ["set_default_format", n] => do some (.setDefaultFormat (← n.toNat?))
+  | ["set_include_dir", d] => do some (.setIncludeDir (← unhexOpt d))
+  | ["set_include_fn", n] => do some (.setIncludeFn (← n.toNat?))
+  | ["set_destructor", n] => do some (.setDestructor ((← n.toNat?) != 0))
+  | ["set_config_hook", n] => do some (.setConfigHook (← n.toNat?))
+  | ["clear"] => some .clear
+  | ["destroy"] => some .destroy
+  | ["read_string", s] => do some (.read (.string (← unhex s)))
+  | ["read_stream", s] => do some (.read (.stream (← unhex s)))
+  | ["read_file", p] => do some (.read (.file (← unhex p)))
+  | ["get", k, p] => do some (.get (← parseKind k) (← parsePath p))
+  | ["get_elem_val", k, p, i] => do some (.getElemVal (← parseKind k) (← parsePath p) (← i.toInt?))
+  | ["lookup_val", k, p, name] => do some (.lookupVal (← parseKind k) (← parsePath p) (← unhexOpt name))
+  | ["clookup_val", k, path] => do some (.clookupVal (← parseKind k) (← unhex path))
+  | ["lookup", p, path] => do some (.lookup (← parsePath p) (← unhex path))
+  | ["get_elem", p, i] => do some (.getElem (← parsePath p) (← i.toNat?))
+  | ["get_member", p, name] => do some (.getMember (← parsePath p) (← unhexOpt name))
+  | ["length", p] => do some (.length (← parsePath p))
+  | ["index", p] => do some (.index (← parsePath p))
+  | ["get_format", p] => do some (.getFormat (← parsePath p))
+  | ["get_option", o] => do some (.getOption (← o.toNat?))
+  | ["write"] => some .write
+  | ["mkfile", p, c] => do some (.mkfile (← unhex p) (← unhex c))
+  | ["mkdir", p] => do some (.mkdir (← unhex p))
+  | ["rmfile", p] => do some (.rmfile (← unhex p))
+  | _ => none
 
-def showOptInt : Option Int → String
-  | none => "0"
-  | some v => s!"1 {v}"
+def showVal : Val → String
+  | .int v => toString v
+  | .float b => hex64 b
+  | .str s => hexOpt s
+  | .unspec => "unspec"
 
-def showOptFloat : Option Nat → String
-  | none => "0"
-  | some v => s!"1 {hex64 v}"
+/-- canonical text of an operation's result (the same text the C harness prints) -/
+def showOut (op : Op) (o : Out) : String :=
+  let withLog (s : String) := s!"{s} {showLog o.log}"
+  match op, o.res with
+  | _, .badOp => "bad-op"
+  | .add .., .ptr p => withLog (showOptPath p)
+  | .remove .., .flag b => withLog (b2s b)
+  | .removeElem .., .flag b => withLog (b2s b)
+  | .clear, _ => withLog "ok"
+  | .destroy, _ => withLog "ok"
+  | .read _, .readResult r =>
+    withLog (match r with
+      | .accept => "1" | .abort => "0" | .exhausted => "0" | .crash => "crash"
+      | .echo b => s!"echo-{b}" | .outOfFuel => "out-of-fuel")
+  | _, .unit => "ok"
+  | _, .flag b => b2s b
+  | _, .ptr p => showOptPath p
+  | _, .val v => showVal v
+  | _, .optVal none => "0"
+  | _, .optVal (some .unspec) => "unspec"
+  | _, .optVal (some v) => s!"1 {showVal v}"
+  | _, .nat n => toString n
+  | _, .bytes b => hex b
+  | _, .readResult _ => "?"
 
-def floatUnspec32 (auto : Bool) (n : Node) : Bool := n.ty == T_FLOAT && auto && !floatCastOk32 n.fval
-def floatUnspec64 (auto : Bool) (n : Node) : Bool := n.ty == T_FLOAT && auto && !floatCastOk64 n.fval
-
-def typedGet (kind : String) (auto : Bool) (n : Node) : String :=
-  match kind with
-  | "int" => if floatUnspec32 auto n then "unspec" else showOptInt (n.getInt auto)
-  | "int64" => if floatUnspec64 auto n then "unspec" else showOptInt (n.getInt64 auto)
-  | "float" => showOptFloat (n.getFloat auto)
-  | "bool" => if n.ty == T_BOOL then s!"1 {n.ival}" else "0"
-  | "string" => if n.ty == T_STRING then s!"1 {hexOpt n.sval}" else "0"
-  | _ => "bad-op"
-
-/-- the plain `config_setting_get_*` functions: 0 / 0.0 / NULL on mismatch -/
-def plainGet (kind : String) (auto : Bool) (n : Node) : String :=
-  match kind with
-  | "int" => if floatUnspec32 auto n then "unspec" else toString ((n.getInt auto).getD 0)
-  | "int64" => if floatUnspec64 auto n then "unspec" else toString ((n.getInt64 auto).getD 0)
-  | "float" => hex64 ((n.getFloat auto).getD 0)
-  | "bool" => toString n.getBool
-  | "string" => hexOpt n.getString
-  | _ => "bad-op"
-
-def doRead (st : DState) (src : Source) : DState × String :=
-  let r := read st.world st.cfg src st.fuel
-  let tag := match r.result with
-    | .accept => "1"
-    | .abort => "0"
-    | .exhausted => "0"
-    | .crash => "crash"
-    | .echo b => s!"echo {b}"
-    | .outOfFuel => "out-of-fuel"
-  ({ st with cfg := r.cfg }, s!"{tag} {showLog r.dtorLog}")
-
-def step (st : DState) (w : List String) : DState × String :=
+def stepLine (st : State) (w : List String) : State × String :=
   let c := st.cfg
-  let auto := c.opt OPT_AUTOCONVERT
   match w with
   | ["init"] => ({ st with cfg := Config.init }, "ok")
   | ["reset_world"] => ({ st with world := {} }, "ok")
-  | ["add", p, name, ty] =>
-    match parsePath p, unhexOpt name, ty.toInt? with
-    | some p, some name, some ty =>
-      match c.root.get? p with
-      | none => (st, "bad-op")
-      | some n =>
-        match n.add c.destructor (c.opt OPT_ALLOW_OVERRIDES) name ty with
-        | none => (st, "null []")
-        | some (n', i, log) =>
-          ({ st with cfg := { c with root := c.root.modify (fun _ => n') p } }, s!"{showPath (p ++ [i])} {showLog log}")
-    | _, _, _ => (st, "bad-op")
-  | ["remove", p, name] =>
-    match parsePath p, unhexOpt name with
-    | some p, some name =>
-      match c.root.get? p with
-      | none => (st, "bad-op")
-      | some n =>
-        match n.remove c.destructor name with
-        | none => (st, "0 []")
-        | some (n', log) => ({ st with cfg := { c with root := c.root.modify (fun _ => n') p } }, s!"1 {showLog log}")
-    | _, _ => (st, "bad-op")
-  | ["remove_elem", p, idx] =>
-    match parsePath p, idx.toNat? with
-    | some p, some idx =>
-      match c.root.get? p with
-      | none => (st, "bad-op")
-      | some n =>
-        match n.removeElem c.destructor idx with
-        | none => (st, "0 []")
-        | some (n', log) => ({ st with cfg := { c with root := c.root.modify (fun _ => n') p } }, s!"1 {showLog log}")
-    | _, _ => (st, "bad-op")
-  | ["set_int", p, v] =>
-    match parsePath p, v.toInt? with
-    | some p, some v => setAt st p (fun n => n.setInt auto v)
-    | _, _ => (st, "bad-op")
-  | ["set_int64", p, v] =>
-    match parsePath p, v.toInt? with
-    | some p, some v => setAt st p (fun n => n.setInt64 auto v)
-    | _, _ => (st, "bad-op")
-  | ["set_float", p, v] =>
-    match parsePath p, unhex v with
-    | some p, some b =>
-      let bits := b.foldl (fun a x => a * 256 + x) 0
-      match c.root.get? p with
-      | none => (st, "bad-op")
-      | some n =>
-        if auto && ((n.ty == T_INT && !floatCastOk32 bits) || (n.ty == T_INT64 && !floatCastOk64 bits)) then (st, "unspec")
-        else setAt st p (fun n => n.setFloat auto bits)
-    | _, _ => (st, "bad-op")
-  | ["set_bool", p, v] =>
-    match parsePath p, v.toInt? with
-    | some p, some v => setAt st p (fun n => n.setBool v)
-    | _, _ => (st, "bad-op")
-  | ["set_string", p, v] =>
-    match parsePath p, unhexOpt v with
-    | some p, some s => setAt st p (fun n => n.setString s)
-    | _, _ => (st, "bad-op")
-  | ["set_format", p, f] =>
-    match parsePath p, f.toNat? with
-    | some p, some f => setAt st p (fun n => n.setFormat f)
-    | _, _ => (st, "bad-op")
-  | ["set_hook", p, h] =>
-    match parsePath p, h.toNat? with
-    | some p, some h =>
-      match c.root.get? p with
-      | none => (st, "bad-op")
-      | some _ => ({ st with cfg := { c with root := c.root.modify (fun n => { n with hook := h }) p } }, "ok")
-    | _, _ => (st, "bad-op")
-  | ["set_int_elem", p, idx, v] =>
-    match parsePath p, idx.toInt?, v.toInt? with
-    | some p, some idx, some v => setElemAt st p idx (fun n => n.setInt auto v) T_INT
-    | _, _, _ => (st, "bad-op")
-  | ["set_int64_elem", p, idx, v] =>
-    match parsePath p, idx.toInt?, v.toInt? with
-    | some p, some idx, some v => setElemAt st p idx (fun n => n.setInt64 auto v) T_INT64
-    | _, _, _ => (st, "bad-op")
-  | ["set_float_elem", p, idx, v] =>
-    match parsePath p, idx.toInt?, unhex v with
-    | some p, some idx, some b =>
-      let bits := b.foldl (fun a x => a * 256 + x) 0
-      let unspec := match c.root.get? p with
-        | some n =>
-          if idx < 0 then false else
-          match getElem n idx.toNat with
-          | some e => auto && ((e.ty == T_INT && !floatCastOk32 bits) || (e.ty == T_INT64 && !floatCastOk64 bits))
-          | none => false
-        | none => false
-      if unspec then (st, "unspec") else setElemAt st p idx (fun n => n.setFloat auto bits) T_FLOAT
-    | _, _, _ => (st, "bad-op")
-  | ["set_bool_elem", p, idx, v] =>
-    match parsePath p, idx.toInt?, v.toInt? with
-    | some p, some idx, some v => setElemAt st p idx (fun n => n.setBool v) T_BOOL
-    | _, _, _ => (st, "bad-op")
-  | ["set_string_elem", p, idx, v] =>
-    match parsePath p, idx.toInt?, unhexOpt v with
-    | some p, some idx, some s => setElemAt st p idx (fun n => n.setString s) T_STRING
-    | _, _, _ => (st, "bad-op")
-  | ["get", kind, p] =>
-    match parsePath p with
-    | some p => withNode st p (plainGet kind auto)
-    | none => (st, "bad-op")
-  | ["get_elem_val", kind, p, idx] =>
-    -- config_setting_get_*_elem
-    match parsePath p, idx.toInt? with
-    | some p, some idx =>
-      withNode st p fun n =>
-        let e := if idx < 0 then getElem n (idx + 4294967296).toNat else getElem n idx.toNat
-        match e with
-        | none => (match kind with | "float" => hex64 0 | "string" => "-" | _ => "0")
-        | some e =>
-          match kind with
-          | "bool" => toString (if e.ty == T_BOOL then e.ival else 0)
-          | "string" => hexOpt (if e.ty == T_STRING then e.sval else none)
-          | _ => plainGet kind auto e
-    | _, _ => (st, "bad-op")
-  | ["lookup_val", kind, p, name] =>
-    -- config_setting_lookup_*
-    match parsePath p, unhexOpt name with
-    | some p, some name =>
-      withNode st p fun n =>
-        match name with
-        | none => "0"
-        | some nm =>
-          match getMember n nm with
-          | none => "0"
-          | some (_, m) => typedGet kind auto m
-    | _, _ => (st, "bad-op")
-  | ["clookup_val", kind, path] =>
-    -- config_lookup_*
-    match unhex path with
-    | some path =>
-      match lookupFrom c.root path with
-      | none => (st, "0")
-      | some q =>
-        match c.root.get? q with
-        | none => (st, "0")
-        | some m => (st, typedGet kind auto m)
-    | none => (st, "bad-op")
-  | ["lookup", p, path] =>
-    match parsePath p, unhex path with
-    | some p, some path =>
-      withNode st p fun n => showOptPath ((lookupFrom n path).map (p ++ ·))
-    | _, _ => (st, "bad-op")
-  | ["get_elem", p, idx] =>
-    match parsePath p, idx.toNat? with
-    | some p, some idx => withNode st p fun n => showOptPath ((getElem n idx).map fun _ => p ++ [idx])
-    | _, _ => (st, "bad-op")
-  | ["get_member", p, name] =>
-    match parsePath p, unhexOpt name with
-    | some p, some name =>
-      withNode st p fun n =>
-        match name with
-        | none => "null"
-        | some nm => showOptPath ((getMember n nm).map fun (i, _) => p ++ [i])
-    | _, _ => (st, "bad-op")
-  | ["length", p] =>
-    match parsePath p with
-    | some p => withNode st p fun n => toString n.length
-    | none => (st, "bad-op")
-  | ["index", p] =>
-    match parsePath p with
-    | some p => withNode st p fun _ => toString (indexOfPath p)
-    | none => (st, "bad-op")
-  | ["get_format", p] =>
-    match parsePath p with
-    | some p => withNode st p fun n => toString (effFormat c n)
-    | none => (st, "bad-op")
   | ["info", p] =>
-    -- type, name, is_root, is_scalar, is_aggregate, is_group/array/list/number, source line/file, hook
     match parsePath p with
-    | some p => withNode st p fun n =>
-        s!"{n.ty} {hexOpt n.name} {b2s p.isEmpty} {b2s (isScalarTy n.ty)} {b2s n.isAggregate} {n.line} {hexOpt n.file} {n.hook}"
+    | some p =>
+      match c.root.get? p with
+      | some n => (st, s!"{n.ty} {hexOpt n.name} {b2s p.isEmpty} {b2s (isScalarTy n.ty)} {b2s n.isAggregate} {n.line} {hexOpt n.file} {n.hook}")
+      | none => (st, "bad-op")
     | none => (st, "bad-op")
-  | ["set_options", n] =>
-    match n.toNat? with
-    | some n => ({ st with cfg := { c with options := n % 4294967296 } }, "ok")
-    | none => (st, "bad-op")
-  | ["set_option", o, f] =>
-    match o.toNat?, f.toNat? with
-    | some o, some f => ({ st with cfg := c.setOption o (f != 0) }, "ok")
-    | _, _ => (st, "bad-op")
-  | ["get_option", o] =>
-    match o.toNat? with
-    | some o => (st, b2s (c.opt o))
-    | none => (st, "bad-op")
-  | ["set_tab_width", n] =>
-    match n.toNat? with
-    | some n => ({ st with cfg := c.setTabWidth n }, "ok")
-    | none => (st, "bad-op")
-  | ["set_float_precision", n] =>
-    match n.toNat? with
-    | some n => ({ st with cfg := { c with floatPrecision := n } }, "ok")
-    | none => (st, "bad-op")
-  | ["set_default_format", n] =>
-    match n.toNat? with
-    | some n => ({ st with cfg := { c with defaultFormat := n } }, "ok")
-    | none => (st, "bad-op")
-  | ["set_include_dir", d] =>
-    match unhexOpt d with
-    | some d => ({ st with cfg := { c with includeDir := d } }, "ok")
-    | none => (st, "bad-op")
-  | ["set_include_fn", n] =>
-    match n.toNat? with
-    | some n => ({ st with cfg := { c with includeFn := n } }, "ok")
-    | none => (st, "bad-op")
-  | ["set_destructor", n] =>
-    match n.toNat? with
-    | some n => ({ st with cfg := { c with destructor := n != 0 } }, "ok")
-    | none => (st, "bad-op")
-  | ["set_config_hook", n] =>
-    match n.toNat? with
-    | some n => ({ st with cfg := { c with hook := n } }, "ok")
-    | none => (st, "bad-op")
-  | ["clear"] =>
-    let (c', log) := c.clear
-    ({ st with cfg := c' }, s!"ok {showLog log}")
-  | ["destroy"] =>
-    -- config_destroy followed by config_init
-    ({ st with cfg := Config.init }, s!"ok {showLog (destroyLog c.destructor c.root)}")
-  | ["read_string", s] =>
-    match unhex s with
-    | some s => doRead st (.string s)
-    | none => (st, "bad-op")
-  | ["read_stream", s] =>
-    match unhex s with
-    | some s => doRead st (.stream s)
-    | none => (st, "bad-op")
-  | ["read_file", p] =>
-    match unhex p with
-    | some p => doRead st (.file p)
-    | none => (st, "bad-op")
-  | ["mkfile", p, content] =>
-    match unhex p, unhex content with
-    | some p, some content =>
-      ({ st with world := { files := (p, some content) :: st.world.files.filter (·.1 != p) } }, "ok")
-    | _, _ => (st, "bad-op")
-  | ["mkdir", p] =>
-    match unhex p with
-    | some p => ({ st with world := { files := (p, none) :: st.world.files.filter (·.1 != p) } }, "ok")
-    | none => (st, "bad-op")
-  | ["rmfile", p] =>
-    match unhex p with
-    | some p => ({ st with world := { files := st.world.files.filter (·.1 != p) } }, "ok")
-    | none => (st, "bad-op")
-  | ["write"] => (st, hex (c.write Generated.FLOAT_BUF_SIZE))
   | ["err"] => (st, s!"{c.errType} {hexOpt c.errText} {hexOpt c.errFile} {c.errLine}")
   | ["dump"] => (st, dumpCfg c)
   | ["wf"] => (st, if c.wfb then "wf ok" else "wf FAIL")
   | ["lookup_all"] => (st, if lookupAllFrom 64 c.root then "lookup_all ok" else "lookup_all FAIL")
-  | _ => (st, "bad-op")
+  | _ =>
+    match parseOp w with
+    | none => (st, "bad-op")
+    | some op =>
+      let (st', o) := step st op
+      (st', showOut op o)
 
-partial def loop (h : IO.FS.Stream) (out : IO.FS.Stream) (st : DState) : IO Unit := do
+partial def loop (h : IO.FS.Stream) (out : IO.FS.Stream) (st : State) : IO Unit := do
   let line ← h.getLine
   if line.isEmpty then return ()
   let ws := (line.trimAscii.toString.splitOn " ").filter (· != "")
   if ws.isEmpty then loop h out st
   else
-    let (st', o) := step st ws
+    let (st', o) := stepLine st ws
     out.putStrLn o
     loop h out st'
 
